@@ -4,4 +4,5 @@ let () = Driver.main [
   { Driver.name = "rx_tolerant"; run = rx_run; judge = rx_judge_tolerant };
   { Driver.name = "st"; run = st_run; judge = st_judge };
   { Driver.name = "st_tolerant"; run = st_run; judge = st_judge_tolerant };
+  { Driver.name = "fv"; run = fv_run; judge = fv_judge };
 ]
